@@ -1,5 +1,7 @@
 import MpireModel.Model.History
 import MpireModel.Proofs.History
+import MpireModel.Model.Permanent
+import MpireModel.Proofs.Permanent
 /-!
 # C06 — a pool stays fully correct after any failed call
 
@@ -59,5 +61,62 @@ example : (callStart (runOps {} [.setKeepAlive true, .call true 1 (.ok 3 [0, 1])
 example : (callStart (runOps {} [.apply 1 (.settled 4 [0, 1, 1]), .call true 2 .rejected, .apply 1 (.poolFailed 2 [0]),
     .call false 3 (.fails 1 [])]) false 4).map (fun s => (s.excFlag, s.taskIdx, s.workers, s.generation)) =
     some (false, 0, some 4, 3) := by decide +kernel
+
+/-! ## The permanent entries of the job cache are as new after a reset (`Mpire.Permanent`)
+
+`_start_workers` resets the MAIN_PROCESS / INIT_FUNC result objects and the exit-result collector; between two resets the
+getter hands out the MOST RECENT error and the collector every exit result in arrival order. -/
+section PermanentEntries
+open Mpire.Permanent
+
+def exitOks : List EOp → List Nat
+  | [] => []
+  | .setOk v :: r => v :: exitOks r
+  | _ :: r => exitOks r
+
+/-- Whatever happened before a reset is gone: the object behaves as a fresh one (so a call after a failed call never
+raises the earlier call's error). -/
+theorem getter_reset_forgets (g : Getter) (before after : List GOp) :
+    g.run (before ++ .reset :: after) = ({} : Getter).run after := by
+  simp [Getter.run, List.foldl_append, Getter.step]
+
+/-- The most recent store is what `get_exception` returns, however many stores preceded it. -/
+theorem getter_latest_wins (g : Getter) (ops : List GOp) (v : Val) :
+    (g.run (ops ++ [.set v])).getException = some v := by
+  simp [Getter.run, List.foldl_append, Getter.step, Getter.getException]
+
+/-- Nothing stored since the reset: not ready (a caller would wait, not read a stale error). -/
+theorem getter_fresh_not_ready (g : Getter) (ops : List GOp) :
+    (g.run (ops ++ [.reset])).ready = false ∧ (g.run (ops ++ [.reset])).getException = none := by
+  simp [Getter.run, List.foldl_append, Getter.step, Getter.getException]
+
+theorem exit_reset_forgets (s : ExitIt) (before after : List EOp) :
+    s.run (before ++ .reset :: after) = ({} : ExitIt).run after := by
+  simp [ExitIt.run, List.foldl_append, ExitIt.step]
+
+/-- `get_exit_results()` after a reset and any stores: exactly the exit results stored since, in arrival order. -/
+theorem exit_results_since_reset (s : ExitIt) (before after : List EOp) (hnr : ∀ op ∈ after, op ≠ .reset) :
+    (s.run (before ++ .reset :: after)).getResults = exitOks after := by
+  rw [exit_reset_forgets]
+  have key : ∀ (ops : List EOp) (s0 : ExitIt), (∀ op ∈ ops, op ≠ .reset) →
+      (s0.run ops).getResults = s0.items ++ exitOks ops := by
+    intro ops
+    induction ops with
+    | nil => intro s0 _; simp [ExitIt.run, ExitIt.getResults, exitOks]
+    | cons op r ih =>
+      intro s0 h
+      have hr := ih (s0.step op) (fun o ho => h o (by simp [ho]))
+      simp only [ExitIt.run, List.foldl_cons] at hr ⊢
+      rw [hr]
+      cases op with
+      | setOk v => simp [ExitIt.step, exitOks]
+      | setErr e => simp [ExitIt.step, exitOks]
+      | reset => exact absurd rfl (h .reset (by simp))
+  simpa using key after {} hnr
+
+example : (({} : Getter).run [.set (.err 1), .set (.err 2), .reset, .set (.err 3), .set (.err 4)]).getException = some (.err 4) := by decide
+example : (({} : ExitIt).run [.setOk 1, .reset, .setOk 2, .setErr 9, .setOk 3]).getResults = [2, 3] := by decide
+
+end PermanentEntries
 
 end Mpire.C06
